@@ -1,23 +1,7 @@
 
-(** val negb : bool -> bool **)
-
-let negb = function
-| true -> false
-| false -> true
-
 type nat =
 | O
 | S of nat
-
-(** val fst : ('a1 * 'a2) -> 'a1 **)
-
-let fst = function
-| (x, _) -> x
-
-(** val snd : ('a1 * 'a2) -> 'a2 **)
-
-let snd = function
-| (_, y) -> y
 
 (** val length : 'a1 list -> nat **)
 
@@ -53,20 +37,6 @@ module Coq__1 = struct
 end
 include Coq__1
 
-module Nat =
- struct
-  (** val eqb : nat -> nat -> bool **)
-
-  let rec eqb n0 m =
-    match n0 with
-    | O -> (match m with
-            | O -> true
-            | S _ -> false)
-    | S n' -> (match m with
-               | O -> false
-               | S m' -> eqb n' m')
- end
-
 (** val nth : nat -> 'a1 list -> 'a1 -> 'a1 **)
 
 let rec nth n0 l default =
@@ -90,39 +60,17 @@ let rec map f = function
 | [] -> []
 | a :: t -> (f a) :: (map f t)
 
-(** val forallb : ('a1 -> bool) -> 'a1 list -> bool **)
+(** val flat_map : ('a1 -> 'a2 list) -> 'a1 list -> 'a2 list **)
 
-let rec forallb f = function
-| [] -> true
-| a :: l0 -> (&&) (f a) (forallb f l0)
+let rec flat_map f = function
+| [] -> []
+| x :: t -> app (f x) (flat_map f t)
 
-(** val combine : 'a1 list -> 'a2 list -> ('a1 * 'a2) list **)
+(** val filter : ('a1 -> bool) -> 'a1 list -> 'a1 list **)
 
-let rec combine l l' =
-  match l with
-  | [] -> []
-  | x :: tl ->
-    (match l' with
-     | [] -> []
-     | y :: tl' -> (x, y) :: (combine tl tl'))
-
-(** val firstn : nat -> 'a1 list -> 'a1 list **)
-
-let rec firstn n0 l =
-  match n0 with
-  | O -> []
-  | S n1 -> (match l with
-             | [] -> []
-             | a :: l0 -> a :: (firstn n1 l0))
-
-(** val skipn : nat -> 'a1 list -> 'a1 list **)
-
-let rec skipn n0 l =
-  match n0 with
-  | O -> l
-  | S n1 -> (match l with
-             | [] -> []
-             | _ :: l0 -> skipn n1 l0)
+let rec filter f = function
+| [] -> []
+| x :: l0 -> if f x then x :: (filter f l0) else filter f l0
 
 (** val repeat : 'a1 -> nat -> 'a1 list **)
 
@@ -393,15 +341,6 @@ module N =
                  | N0 -> n0
                  | Npos q -> Npos (Pos.coq_lor p q))
 
-  (** val coq_land : n -> n -> n **)
-
-  let coq_land n0 m =
-    match n0 with
-    | N0 -> N0
-    | Npos p -> (match m with
-                 | N0 -> N0
-                 | Npos q -> Pos.coq_land p q)
-
   (** val ldiff : n -> n -> n **)
 
   let ldiff n0 m =
@@ -510,6 +449,18 @@ module Z =
        | Z0 -> Z0
        | Zpos y' -> Zneg (Pos.mul x' y')
        | Zneg y' -> Zpos (Pos.mul x' y'))
+
+  (** val pow_pos : z -> positive -> z **)
+
+  let pow_pos z0 =
+    Pos.iter (mul z0) (Zpos XH)
+
+  (** val pow : z -> z -> z **)
+
+  let pow x = function
+  | Z0 -> Zpos XH
+  | Zpos p -> pow_pos x p
+  | Zneg _ -> Z0
 
   (** val compare : z -> z -> comparison **)
 
@@ -635,6 +586,11 @@ module Z =
           | _ -> ((opp (add q (Zpos XH))), (sub b r)))
        | Zneg b' -> let (q, r) = pos_div_eucl a' (Zpos b') in (q, (opp r)))
 
+  (** val div : z -> z -> z **)
+
+  let div a b =
+    let (q, _) = div_eucl a b in q
+
   (** val modulo : z -> z -> z **)
 
   let modulo a b =
@@ -656,22 +612,10 @@ module Z =
   | Zpos p -> Pos.iter (mul (Zpos (XO XH))) a p
   | Zneg p -> Pos.iter div2 a p
 
-  (** val coq_lor : z -> z -> z **)
+  (** val shiftr : z -> z -> z **)
 
-  let coq_lor a b =
-    match a with
-    | Z0 -> b
-    | Zpos a0 ->
-      (match b with
-       | Z0 -> a
-       | Zpos b0 -> Zpos (Pos.coq_lor a0 b0)
-       | Zneg b0 -> Zneg (N.succ_pos (N.ldiff (Pos.pred_N b0) (Npos a0))))
-    | Zneg a0 ->
-      (match b with
-       | Z0 -> a
-       | Zpos b0 -> Zneg (N.succ_pos (N.ldiff (Pos.pred_N a0) (Npos b0)))
-       | Zneg b0 ->
-         Zneg (N.succ_pos (N.coq_land (Pos.pred_N a0) (Pos.pred_N b0))))
+  let shiftr a n0 =
+    shiftl a (opp n0)
 
   (** val coq_land : z -> z -> z **)
 
@@ -704,15 +648,6 @@ let wrap32 z0 =
     (XO (XO (XO (XO (XO (XO (XO (XO (XO (XO (XO (XO (XO (XO (XO (XO (XO (XO
     (XO (XO (XO (XO (XO (XO (XO (XO (XO (XO (XO (XO (XO
     XH))))))))))))))))))))))))))))))))
-
-(** val u64 : z -> z **)
-
-let u64 z0 =
-  Z.modulo z0 (Zpos (XO (XO (XO (XO (XO (XO (XO (XO (XO (XO (XO (XO (XO (XO
-    (XO (XO (XO (XO (XO (XO (XO (XO (XO (XO (XO (XO (XO (XO (XO (XO (XO (XO
-    (XO (XO (XO (XO (XO (XO (XO (XO (XO (XO (XO (XO (XO (XO (XO (XO (XO (XO
-    (XO (XO (XO (XO (XO (XO (XO (XO (XO (XO (XO (XO (XO (XO
-    XH)))))))))))))))))))))))))))))))))))))))))))))))))))))))))))))))))
 
 (** val split_at : z -> z list -> z list -> z list list * z list **)
 
@@ -754,655 +689,604 @@ let records d cr bs =
      | [] -> []
      | _ :: _ -> t :: [])
 
-(** val fold_default_width : z **)
+(** val unrecords : z -> z list list -> z list **)
 
-let fold_default_width =
-  Zpos (XO (XO (XO (XO (XI (XO XH))))))
+let unrecords d rs =
+  flat_map (fun r -> app r (d :: [])) rs
 
-(** val fold_default_keep : bool **)
+(** val tABLE : z list **)
 
-let fold_default_keep =
+let tABLE =
+  (Zpos (XI (XO (XO (XO (XO (XO XH))))))) :: ((Zpos (XO (XI (XO (XO (XO (XO
+    XH))))))) :: ((Zpos (XI (XI (XO (XO (XO (XO XH))))))) :: ((Zpos (XO (XO
+    (XI (XO (XO (XO XH))))))) :: ((Zpos (XI (XO (XI (XO (XO (XO
+    XH))))))) :: ((Zpos (XO (XI (XI (XO (XO (XO XH))))))) :: ((Zpos (XI (XI
+    (XI (XO (XO (XO XH))))))) :: ((Zpos (XO (XO (XO (XI (XO (XO
+    XH))))))) :: ((Zpos (XI (XO (XO (XI (XO (XO XH))))))) :: ((Zpos (XO (XI
+    (XO (XI (XO (XO XH))))))) :: ((Zpos (XI (XI (XO (XI (XO (XO
+    XH))))))) :: ((Zpos (XO (XO (XI (XI (XO (XO XH))))))) :: ((Zpos (XI (XO
+    (XI (XI (XO (XO XH))))))) :: ((Zpos (XO (XI (XI (XI (XO (XO
+    XH))))))) :: ((Zpos (XI (XI (XI (XI (XO (XO XH))))))) :: ((Zpos (XO (XO
+    (XO (XO (XI (XO XH))))))) :: ((Zpos (XI (XO (XO (XO (XI (XO
+    XH))))))) :: ((Zpos (XO (XI (XO (XO (XI (XO XH))))))) :: ((Zpos (XI (XI
+    (XO (XO (XI (XO XH))))))) :: ((Zpos (XO (XO (XI (XO (XI (XO
+    XH))))))) :: ((Zpos (XI (XO (XI (XO (XI (XO XH))))))) :: ((Zpos (XO (XI
+    (XI (XO (XI (XO XH))))))) :: ((Zpos (XI (XI (XI (XO (XI (XO
+    XH))))))) :: ((Zpos (XO (XO (XO (XI (XI (XO XH))))))) :: ((Zpos (XI (XO
+    (XO (XI (XI (XO XH))))))) :: ((Zpos (XO (XI (XO (XI (XI (XO
+    XH))))))) :: ((Zpos (XI (XO (XO (XO (XO (XI XH))))))) :: ((Zpos (XO (XI
+    (XO (XO (XO (XI XH))))))) :: ((Zpos (XI (XI (XO (XO (XO (XI
+    XH))))))) :: ((Zpos (XO (XO (XI (XO (XO (XI XH))))))) :: ((Zpos (XI (XO
+    (XI (XO (XO (XI XH))))))) :: ((Zpos (XO (XI (XI (XO (XO (XI
+    XH))))))) :: ((Zpos (XI (XI (XI (XO (XO (XI XH))))))) :: ((Zpos (XO (XO
+    (XO (XI (XO (XI XH))))))) :: ((Zpos (XI (XO (XO (XI (XO (XI
+    XH))))))) :: ((Zpos (XO (XI (XO (XI (XO (XI XH))))))) :: ((Zpos (XI (XI
+    (XO (XI (XO (XI XH))))))) :: ((Zpos (XO (XO (XI (XI (XO (XI
+    XH))))))) :: ((Zpos (XI (XO (XI (XI (XO (XI XH))))))) :: ((Zpos (XO (XI
+    (XI (XI (XO (XI XH))))))) :: ((Zpos (XI (XI (XI (XI (XO (XI
+    XH))))))) :: ((Zpos (XO (XO (XO (XO (XI (XI XH))))))) :: ((Zpos (XI (XO
+    (XO (XO (XI (XI XH))))))) :: ((Zpos (XO (XI (XO (XO (XI (XI
+    XH))))))) :: ((Zpos (XI (XI (XO (XO (XI (XI XH))))))) :: ((Zpos (XO (XO
+    (XI (XO (XI (XI XH))))))) :: ((Zpos (XI (XO (XI (XO (XI (XI
+    XH))))))) :: ((Zpos (XO (XI (XI (XO (XI (XI XH))))))) :: ((Zpos (XI (XI
+    (XI (XO (XI (XI XH))))))) :: ((Zpos (XO (XO (XO (XI (XI (XI
+    XH))))))) :: ((Zpos (XI (XO (XO (XI (XI (XI XH))))))) :: ((Zpos (XO (XI
+    (XO (XI (XI (XI XH))))))) :: ((Zpos (XO (XO (XO (XO (XI
+    XH)))))) :: ((Zpos (XI (XO (XO (XO (XI XH)))))) :: ((Zpos (XO (XI (XO (XO
+    (XI XH)))))) :: ((Zpos (XI (XI (XO (XO (XI XH)))))) :: ((Zpos (XO (XO (XI
+    (XO (XI XH)))))) :: ((Zpos (XI (XO (XI (XO (XI XH)))))) :: ((Zpos (XO (XI
+    (XI (XO (XI XH)))))) :: ((Zpos (XI (XI (XI (XO (XI XH)))))) :: ((Zpos (XO
+    (XO (XO (XI (XI XH)))))) :: ((Zpos (XI (XO (XO (XI (XI XH)))))) :: ((Zpos
+    (XI (XI (XO (XI (XO XH)))))) :: ((Zpos (XI (XI (XI (XI (XO
+    XH)))))) :: [])))))))))))))))))))))))))))))))))))))))))))))))))))))))))))))))
+
+(** val iNV_TABLE : z list **)
+
+let iNV_TABLE =
+  (Zneg XH) :: ((Zneg XH) :: ((Zneg XH) :: ((Zneg XH) :: ((Zneg XH) :: ((Zneg
+    XH) :: ((Zneg XH) :: ((Zneg XH) :: ((Zneg XH) :: ((Zneg XH) :: ((Zneg
+    XH) :: ((Zneg XH) :: ((Zneg XH) :: ((Zneg XH) :: ((Zneg XH) :: ((Zneg
+    XH) :: ((Zneg XH) :: ((Zneg XH) :: ((Zneg XH) :: ((Zneg XH) :: ((Zneg
+    XH) :: ((Zneg XH) :: ((Zneg XH) :: ((Zneg XH) :: ((Zneg XH) :: ((Zneg
+    XH) :: ((Zneg XH) :: ((Zneg XH) :: ((Zneg XH) :: ((Zneg XH) :: ((Zneg
+    XH) :: ((Zneg XH) :: ((Zneg XH) :: ((Zneg XH) :: ((Zneg XH) :: ((Zneg
+    XH) :: ((Zneg XH) :: ((Zneg XH) :: ((Zneg XH) :: ((Zneg XH) :: ((Zneg
+    XH) :: ((Zneg XH) :: ((Zneg XH) :: ((Zpos (XO (XI (XI (XI (XI
+    XH)))))) :: ((Zneg XH) :: ((Zneg XH) :: ((Zneg XH) :: ((Zpos (XI (XI (XI
+    (XI (XI XH)))))) :: ((Zpos (XO (XO (XI (XO (XI XH)))))) :: ((Zpos (XI (XO
+    (XI (XO (XI XH)))))) :: ((Zpos (XO (XI (XI (XO (XI XH)))))) :: ((Zpos (XI
+    (XI (XI (XO (XI XH)))))) :: ((Zpos (XO (XO (XO (XI (XI XH)))))) :: ((Zpos
+    (XI (XO (XO (XI (XI XH)))))) :: ((Zpos (XO (XI (XO (XI (XI
+    XH)))))) :: ((Zpos (XI (XI (XO (XI (XI XH)))))) :: ((Zpos (XO (XO (XI (XI
+    (XI XH)))))) :: ((Zpos (XI (XO (XI (XI (XI XH)))))) :: ((Zneg
+    XH) :: ((Zneg XH) :: ((Zneg XH) :: ((Zneg XH) :: ((Zneg XH) :: ((Zneg
+    XH) :: ((Zneg XH) :: (Z0 :: ((Zpos XH) :: ((Zpos (XO XH)) :: ((Zpos (XI
+    XH)) :: ((Zpos (XO (XO XH))) :: ((Zpos (XI (XO XH))) :: ((Zpos (XO (XI
+    XH))) :: ((Zpos (XI (XI XH))) :: ((Zpos (XO (XO (XO XH)))) :: ((Zpos (XI
+    (XO (XO XH)))) :: ((Zpos (XO (XI (XO XH)))) :: ((Zpos (XI (XI (XO
+    XH)))) :: ((Zpos (XO (XO (XI XH)))) :: ((Zpos (XI (XO (XI
+    XH)))) :: ((Zpos (XO (XI (XI XH)))) :: ((Zpos (XI (XI (XI
+    XH)))) :: ((Zpos (XO (XO (XO (XO XH))))) :: ((Zpos (XI (XO (XO (XO
+    XH))))) :: ((Zpos (XO (XI (XO (XO XH))))) :: ((Zpos (XI (XI (XO (XO
+    XH))))) :: ((Zpos (XO (XO (XI (XO XH))))) :: ((Zpos (XI (XO (XI (XO
+    XH))))) :: ((Zpos (XO (XI (XI (XO XH))))) :: ((Zpos (XI (XI (XI (XO
+    XH))))) :: ((Zpos (XO (XO (XO (XI XH))))) :: ((Zpos (XI (XO (XO (XI
+    XH))))) :: ((Zneg XH) :: ((Zneg XH) :: ((Zneg XH) :: ((Zneg XH) :: ((Zneg
+    XH) :: ((Zneg XH) :: ((Zpos (XO (XI (XO (XI XH))))) :: ((Zpos (XI (XI (XO
+    (XI XH))))) :: ((Zpos (XO (XO (XI (XI XH))))) :: ((Zpos (XI (XO (XI (XI
+    XH))))) :: ((Zpos (XO (XI (XI (XI XH))))) :: ((Zpos (XI (XI (XI (XI
+    XH))))) :: ((Zpos (XO (XO (XO (XO (XO XH)))))) :: ((Zpos (XI (XO (XO (XO
+    (XO XH)))))) :: ((Zpos (XO (XI (XO (XO (XO XH)))))) :: ((Zpos (XI (XI (XO
+    (XO (XO XH)))))) :: ((Zpos (XO (XO (XI (XO (XO XH)))))) :: ((Zpos (XI (XO
+    (XI (XO (XO XH)))))) :: ((Zpos (XO (XI (XI (XO (XO XH)))))) :: ((Zpos (XI
+    (XI (XI (XO (XO XH)))))) :: ((Zpos (XO (XO (XO (XI (XO XH)))))) :: ((Zpos
+    (XI (XO (XO (XI (XO XH)))))) :: ((Zpos (XO (XI (XO (XI (XO
+    XH)))))) :: ((Zpos (XI (XI (XO (XI (XO XH)))))) :: ((Zpos (XO (XO (XI (XI
+    (XO XH)))))) :: ((Zpos (XI (XO (XI (XI (XO XH)))))) :: ((Zpos (XO (XI (XI
+    (XI (XO XH)))))) :: ((Zpos (XI (XI (XI (XI (XO XH)))))) :: ((Zpos (XO (XO
+    (XO (XO (XI XH)))))) :: ((Zpos (XI (XO (XO (XO (XI XH)))))) :: ((Zpos (XO
+    (XI (XO (XO (XI XH)))))) :: ((Zpos (XI (XI (XO (XO (XI XH)))))) :: ((Zneg
+    XH) :: ((Zneg XH) :: ((Zneg XH) :: ((Zneg XH) :: ((Zneg XH) :: ((Zneg
+    XH) :: ((Zneg XH) :: ((Zneg XH) :: ((Zneg XH) :: ((Zneg XH) :: ((Zneg
+    XH) :: ((Zneg XH) :: ((Zneg XH) :: ((Zneg XH) :: ((Zneg XH) :: ((Zneg
+    XH) :: ((Zneg XH) :: ((Zneg XH) :: ((Zneg XH) :: ((Zneg XH) :: ((Zneg
+    XH) :: ((Zneg XH) :: ((Zneg XH) :: ((Zneg XH) :: ((Zneg XH) :: ((Zneg
+    XH) :: ((Zneg XH) :: ((Zneg XH) :: ((Zneg XH) :: ((Zneg XH) :: ((Zneg
+    XH) :: ((Zneg XH) :: ((Zneg XH) :: ((Zneg XH) :: ((Zneg XH) :: ((Zneg
+    XH) :: ((Zneg XH) :: ((Zneg XH) :: ((Zneg XH) :: ((Zneg XH) :: ((Zneg
+    XH) :: ((Zneg XH) :: ((Zneg XH) :: ((Zneg XH) :: ((Zneg XH) :: ((Zneg
+    XH) :: ((Zneg XH) :: ((Zneg XH) :: ((Zneg XH) :: ((Zneg XH) :: ((Zneg
+    XH) :: ((Zneg XH) :: ((Zneg XH) :: ((Zneg XH) :: ((Zneg XH) :: ((Zneg
+    XH) :: ((Zneg XH) :: ((Zneg XH) :: ((Zneg XH) :: ((Zneg XH) :: ((Zneg
+    XH) :: ((Zneg XH) :: ((Zneg XH) :: ((Zneg XH) :: ((Zneg XH) :: ((Zneg
+    XH) :: ((Zneg XH) :: ((Zneg XH) :: ((Zneg XH) :: ((Zneg XH) :: ((Zneg
+    XH) :: ((Zneg XH) :: ((Zneg XH) :: ((Zneg XH) :: ((Zneg XH) :: ((Zneg
+    XH) :: ((Zneg XH) :: ((Zneg XH) :: ((Zneg XH) :: ((Zneg XH) :: ((Zneg
+    XH) :: ((Zneg XH) :: ((Zneg XH) :: ((Zneg XH) :: ((Zneg XH) :: ((Zneg
+    XH) :: ((Zneg XH) :: ((Zneg XH) :: ((Zneg XH) :: ((Zneg XH) :: ((Zneg
+    XH) :: ((Zneg XH) :: ((Zneg XH) :: ((Zneg XH) :: ((Zneg XH) :: ((Zneg
+    XH) :: ((Zneg XH) :: ((Zneg XH) :: ((Zneg XH) :: ((Zneg XH) :: ((Zneg
+    XH) :: ((Zneg XH) :: ((Zneg XH) :: ((Zneg XH) :: ((Zneg XH) :: ((Zneg
+    XH) :: ((Zneg XH) :: ((Zneg XH) :: ((Zneg XH) :: ((Zneg XH) :: ((Zneg
+    XH) :: ((Zneg XH) :: ((Zneg XH) :: ((Zneg XH) :: ((Zneg XH) :: ((Zneg
+    XH) :: ((Zneg XH) :: ((Zneg XH) :: ((Zneg XH) :: ((Zneg XH) :: ((Zneg
+    XH) :: ((Zneg XH) :: ((Zneg XH) :: ((Zneg XH) :: ((Zneg XH) :: ((Zneg
+    XH) :: ((Zneg XH) :: ((Zneg XH) :: ((Zneg XH) :: ((Zneg XH) :: ((Zneg
+    XH) :: ((Zneg XH) :: ((Zneg
+    XH) :: [])))))))))))))))))))))))))))))))))))))))))))))))))))))))))))))))))))))))))))))))))))))))))))))))))))))))))))))))))))))))))))))))))))))))))))))))))))))))))))))))))))))))))))))))))))))))))))))))))))))))))))))))))))))))))))))))))))))))))))))))))))))))))))))))
+
+(** val enc_val0 : z **)
+
+let enc_val0 =
+  Z0
+
+(** val enc_valb0 : z **)
+
+let enc_valb0 =
+  Zneg (XO (XI XH))
+
+(** val enc_shift : z **)
+
+let enc_shift =
+  Zpos (XO (XO (XO XH)))
+
+(** val enc_valb_add : z **)
+
+let enc_valb_add =
+  Zpos (XO (XO (XO XH)))
+
+(** val enc_loop_bound : z **)
+
+let enc_loop_bound =
+  Z0
+
+(** val enc_mask : z **)
+
+let enc_mask =
+  Zpos (XI (XI (XI (XI (XI XH)))))
+
+(** val enc_valb_sub : z **)
+
+let enc_valb_sub =
+  Zpos (XO (XI XH))
+
+(** val enc_tail_bound : z **)
+
+let enc_tail_bound =
+  Zneg (XO (XI XH))
+
+(** val enc_tail_shl : z **)
+
+let enc_tail_shl =
+  Zpos (XO (XO (XO XH)))
+
+(** val enc_tail_add : z **)
+
+let enc_tail_add =
+  Zpos (XO (XO (XO XH)))
+
+(** val enc_tail_mask : z **)
+
+let enc_tail_mask =
+  Zpos (XI (XI (XI (XI (XI XH)))))
+
+(** val enc_pad_mod : z **)
+
+let enc_pad_mod =
+  Zpos (XO (XO XH))
+
+(** val pad_char : z **)
+
+let pad_char =
+  Zpos (XI (XO (XI (XI (XI XH)))))
+
+(** val dec_val0 : z **)
+
+let dec_val0 =
+  Z0
+
+(** val dec_valb0 : z **)
+
+let dec_valb0 =
+  Zneg (XO (XO (XO XH)))
+
+(** val dec_pad_char : z **)
+
+let dec_pad_char =
+  Zpos (XI (XO (XI (XI (XI XH)))))
+
+(** val dec_reject : z **)
+
+let dec_reject =
+  Zneg XH
+
+(** val dec_shift : z **)
+
+let dec_shift =
+  Zpos (XO (XI XH))
+
+(** val dec_valb_add : z **)
+
+let dec_valb_add =
+  Zpos (XO (XI XH))
+
+(** val dec_out_bound : z **)
+
+let dec_out_bound =
+  Z0
+
+(** val dec_mask : z **)
+
+let dec_mask =
+  Zpos (XI (XI (XI (XI (XI (XI (XI XH)))))))
+
+(** val dec_valb_sub : z **)
+
+let dec_valb_sub =
+  Zpos (XO (XO (XO XH)))
+
+(** val tbl : z -> z **)
+
+let tbl i =
+  nth (Z.to_nat i) tABLE Z0
+
+(** val inv : z -> z **)
+
+let inv c =
+  nth (Z.to_nat c) iNV_TABLE Z0
+
+(** val sel : z -> z -> z -> z **)
+
+let sel val0 valb mask =
+  Z.coq_land (Z.shiftr val0 valb) mask
+
+(** val enc_drain : nat -> z -> z -> (z list * z) option **)
+
+let rec enc_drain fuel val0 valb =
+  if Z.geb valb enc_loop_bound
+  then (match fuel with
+        | O -> None
+        | S f ->
+          (match enc_drain f val0 (Z.sub valb enc_valb_sub) with
+           | Some p ->
+             let (o, vb) = p in
+             Some (((tbl (sel val0 valb enc_mask)) :: o), vb)
+           | None -> None))
+  else Some ([], valb)
+
+(** val drain_fuel : nat **)
+
+let drain_fuel =
+  S (S (S (S (S (S (S (S O)))))))
+
+(** val enc_bytes : z list -> z -> z -> ((z list * z) * z) option **)
+
+let rec enc_bytes bs val0 valb =
+  match bs with
+  | [] -> Some (([], val0), valb)
+  | c :: r ->
+    let val' = wrap32 (Z.add (Z.mul val0 (Z.pow (Zpos (XO XH)) enc_shift)) c)
+    in
+    (match enc_drain drain_fuel val' (Z.add valb enc_valb_add) with
+     | Some p ->
+       let (o, vb) = p in
+       (match enc_bytes r val' vb with
+        | Some p0 ->
+          let (p1, b) = p0 in let (o2, v) = p1 in Some (((app o o2), v), b)
+        | None -> None)
+     | None -> None)
+
+(** val enc_pad : nat -> z list **)
+
+let enc_pad n0 =
+  repeat pad_char
+    (Z.to_nat
+      (Z.modulo (Z.sub enc_pad_mod (Z.modulo (Z.of_nat n0) enc_pad_mod))
+        enc_pad_mod))
+
+(** val base64_encode : z list -> z list option **)
+
+let base64_encode bs =
+  match enc_bytes bs enc_val0 enc_valb0 with
+  | Some p ->
+    let (p0, valb) = p in
+    let (o, val0) = p0 in
+    let o' =
+      if Z.gtb valb enc_tail_bound
+      then app o
+             ((tbl
+                (sel
+                  (wrap32 (Z.mul val0 (Z.pow (Zpos (XO XH)) enc_tail_shl)))
+                  (Z.add valb enc_tail_add) enc_tail_mask)) :: [])
+      else o
+    in
+    Some (app o' (enc_pad (length o')))
+  | None -> None
+
+type dres =
+| DOk of z list
+| DBadChar of z
+| DLengthError
+
+(** val count_padding_rev : z list -> nat **)
+
+let rec count_padding_rev = function
+| [] -> O
+| c :: r' ->
+  if Z.eqb c (Zpos (XI (XO (XI (XI (XI XH))))))
+  then S (count_padding_rev r')
+  else O
+
+(** val count_padding : z list -> nat **)
+
+let count_padding cs =
+  count_padding_rev (rev cs)
+
+(** val dec_loop : z list -> z -> z -> dres **)
+
+let rec dec_loop cs val0 valb =
+  match cs with
+  | [] -> DOk []
+  | c :: r ->
+    if Z.eqb c dec_pad_char
+    then DOk []
+    else if Z.eqb (inv c) dec_reject
+         then DBadChar c
+         else let val' =
+                wrap32
+                  (Z.add (Z.mul val0 (Z.pow (Zpos (XO XH)) dec_shift))
+                    (inv c))
+              in
+              let valb' = Z.add valb dec_valb_add in
+              if Z.geb valb' dec_out_bound
+              then (match dec_loop r val' (Z.sub valb' dec_valb_sub) with
+                    | DOk o -> DOk ((sel val' valb' dec_mask) :: o)
+                    | x -> x)
+              else dec_loop r val' valb'
+
+(** val base64_decode : z list -> dres **)
+
+let base64_decode cs =
+  if Z.ltb
+       (Z.div (Z.mul (Z.of_nat (length cs)) (Zpos (XI XH))) (Zpos (XO (XO
+         XH)))) (Z.of_nat (count_padding cs))
+  then DLengthError
+  else dec_loop cs dec_val0 dec_valb0
+
+(** val b64f_feeder_strip_cr : bool **)
+
+let b64f_feeder_strip_cr =
   true
 
-(** val fold_default_delims : z list **)
+(** val b64f_collector_strip_cr : bool **)
 
-let fold_default_delims =
-  (Zpos (XO (XI (XO (XI (XI XH)))))) :: ((Zpos (XO (XO (XI (XI (XO
-    XH)))))) :: ((Zpos (XO (XO (XO (XO (XO XH)))))) :: ((Zpos (XI (XO (XI (XI
-    (XO XH)))))) :: ((Zpos (XO (XI (XI (XI (XO XH)))))) :: ((Zpos (XI (XI (XI
-    (XI (XO XH)))))) :: [])))))
-
-(** val fold_s_sets_keep : bool **)
-
-let fold_s_sets_keep =
+let b64f_collector_strip_cr =
   false
 
-(** val fold_feeder_strip_cr : bool **)
+(** val b64f_back_guarded : bool **)
 
-let fold_feeder_strip_cr =
-  false
+let b64f_back_guarded =
+  true
 
-(** val fold_collector_strip_cr : bool **)
+(** val b64f_nl_test : z **)
 
-let fold_collector_strip_cr =
-  false
+let b64f_nl_test =
+  Zpos (XO (XI (XO XH)))
 
-(** val fu8_trail_bound : z **)
+(** val b64f_nl_push : z **)
 
-let fu8_trail_bound =
-  Zneg (XO (XO (XO (XO (XO (XO XH))))))
+let b64f_nl_push =
+  Zpos (XO (XI (XO XH)))
 
-(** val fu8_valid_lt : z **)
+(** val b64f_nl_count : z **)
 
-let fu8_valid_lt =
-  Zpos (XO (XO (XO (XO (XO (XO (XO (XO (XO (XO (XO (XI (XI (XO (XI
-    XH)))))))))))))))
+let b64f_nl_count =
+  Zpos (XO (XI (XO XH)))
 
-(** val fu8_valid_ge : z **)
+(** val b64f_nl_back : z **)
 
-let fu8_valid_ge =
-  Zpos (XO (XO (XO (XO (XO (XO (XO (XO (XO (XO (XO (XO (XO (XI (XI
-    XH)))))))))))))))
+let b64f_nl_back =
+  Zpos (XO (XI (XO XH)))
 
-(** val fu8_valid_le : z **)
+(** val b64f_nl_out : z **)
 
-let fu8_valid_le =
-  Zpos (XI (XI (XI (XI (XI (XI (XI (XI (XI (XI (XI (XI (XI (XI (XI (XI (XO
-    (XO (XO (XO XH))))))))))))))))))))
+let b64f_nl_out =
+  Zpos (XO (XI (XO XH)))
 
-(** val fu8_b1_lt : z **)
+type docmeta = { line_cnt : nat; has_nl : bool }
 
-let fu8_b1_lt =
-  Zpos (XO (XO (XO (XO (XO (XO (XO XH)))))))
+(** val last_byte : z list -> z option **)
 
-(** val fu8_b1_len : z **)
-
-let fu8_b1_len =
-  Zpos XH
-
-(** val fu8_b2_len : z **)
-
-let fu8_b2_len =
-  Zpos (XO XH)
-
-(** val fu8_b2_leadmask : z **)
-
-let fu8_b2_leadmask =
-  Zpos (XO (XO (XO (XO (XO (XI (XI XH)))))))
-
-(** val fu8_b2_leadval : z **)
-
-let fu8_b2_leadval =
-  Zpos (XO (XO (XO (XO (XO (XO (XI XH)))))))
-
-(** val fu8_b2_m0 : z **)
-
-let fu8_b2_m0 =
-  Zpos (XI (XI (XI (XI XH))))
-
-(** val fu8_b2_s0 : z **)
-
-let fu8_b2_s0 =
-  Zpos (XO (XI XH))
-
-(** val fu8_b2_m1 : z **)
-
-let fu8_b2_m1 =
-  Zpos (XI (XI (XI (XI (XI XH)))))
-
-(** val fu8_b2_min : z **)
-
-let fu8_b2_min =
-  Zpos (XO (XO (XO (XO (XO (XO (XO XH)))))))
-
-(** val fu8_b2_mblen : z **)
-
-let fu8_b2_mblen =
-  Zpos (XO XH)
-
-(** val fu8_b3_len : z **)
-
-let fu8_b3_len =
-  Zpos (XI XH)
-
-(** val fu8_b3_leadmask : z **)
-
-let fu8_b3_leadmask =
-  Zpos (XO (XO (XO (XO (XI (XI (XI XH)))))))
-
-(** val fu8_b3_leadval : z **)
-
-let fu8_b3_leadval =
-  Zpos (XO (XO (XO (XO (XO (XI (XI XH)))))))
-
-(** val fu8_b3_m0 : z **)
-
-let fu8_b3_m0 =
-  Zpos (XI (XI (XI XH)))
-
-(** val fu8_b3_s0 : z **)
-
-let fu8_b3_s0 =
-  Zpos (XO (XO (XI XH)))
-
-(** val fu8_b3_m1 : z **)
-
-let fu8_b3_m1 =
-  Zpos (XI (XI (XI (XI (XI XH)))))
-
-(** val fu8_b3_s1 : z **)
-
-let fu8_b3_s1 =
-  Zpos (XO (XI XH))
-
-(** val fu8_b3_m2 : z **)
-
-let fu8_b3_m2 =
-  Zpos (XI (XI (XI (XI (XI XH)))))
-
-(** val fu8_b3_min : z **)
-
-let fu8_b3_min =
-  Zpos (XO (XO (XO (XO (XO (XO (XO (XO (XO (XO (XO XH)))))))))))
-
-(** val fu8_b3_mblen : z **)
-
-let fu8_b3_mblen =
-  Zpos (XI XH)
-
-(** val fu8_b4_len : z **)
-
-let fu8_b4_len =
-  Zpos (XO (XO XH))
-
-(** val fu8_b4_leadmask : z **)
-
-let fu8_b4_leadmask =
-  Zpos (XO (XO (XO (XI (XI (XI (XI XH)))))))
-
-(** val fu8_b4_leadval : z **)
-
-let fu8_b4_leadval =
-  Zpos (XO (XO (XO (XO (XI (XI (XI XH)))))))
-
-(** val fu8_b4_m0 : z **)
-
-let fu8_b4_m0 =
-  Zpos (XI (XI XH))
-
-(** val fu8_b4_s0 : z **)
-
-let fu8_b4_s0 =
-  Zpos (XO (XI (XO (XO XH))))
-
-(** val fu8_b4_m1 : z **)
-
-let fu8_b4_m1 =
-  Zpos (XI (XI (XI (XI (XI XH)))))
-
-(** val fu8_b4_s1 : z **)
-
-let fu8_b4_s1 =
-  Zpos (XO (XO (XI XH)))
-
-(** val fu8_b4_m2 : z **)
-
-let fu8_b4_m2 =
-  Zpos (XI (XI (XI (XI (XI XH)))))
-
-(** val fu8_b4_s2 : z **)
-
-let fu8_b4_s2 =
-  Zpos (XO (XI XH))
-
-(** val fu8_b4_m3 : z **)
-
-let fu8_b4_m3 =
-  Zpos (XI (XI (XI (XI (XI XH)))))
-
-(** val fu8_b4_min : z **)
-
-let fu8_b4_min =
-  Zpos (XO (XO (XO (XO (XO (XO (XO (XO (XO (XO (XO (XO (XO (XO (XO (XO
-    XH))))))))))))))))
-
-(** val fu8_b4_mblen : z **)
-
-let fu8_b4_mblen =
-  Zpos (XO (XO XH))
-
-(** val schar : z -> z **)
-
-let schar x =
-  if Z.ltb x (Zpos (XO (XO (XO (XO (XO (XO (XO XH))))))))
-  then x
-  else Z.sub x (Zpos (XO (XO (XO (XO (XO (XO (XO (XO XH)))))))))
-
-(** val is_trail : z -> bool **)
-
-let is_trail x =
-  Z.ltb (schar x) fu8_trail_bound
-
-(** val is_valid_cp : z -> bool **)
-
-let is_valid_cp c =
-  (||) (Z.ltb c fu8_valid_lt)
-    ((&&) (Z.leb fu8_valid_ge c) (Z.leb c fu8_valid_le))
-
-(** val byte_at : z list -> nat -> z **)
-
-let byte_at bs i =
-  nth i bs Z0
-
-(** val decode_utf8 : z list -> (z * z) option **)
-
-let decode_utf8 bs = match bs with
-| [] -> None
-| b0 :: _ ->
-  let len = Z.of_nat (length bs) in
-  if Z.ltb b0 fu8_b1_lt
-  then Some (b0, fu8_b1_len)
-  else if (&&) (Z.leb fu8_b2_len len)
-            (Z.eqb (Z.coq_land b0 fu8_b2_leadmask) fu8_b2_leadval)
-       then let cp =
-              Z.coq_lor (Z.shiftl (Z.coq_land b0 fu8_b2_m0) fu8_b2_s0)
-                (Z.coq_land (byte_at bs (S O)) fu8_b2_m1)
-            in
-            if (&&)
-                 ((&&) (is_trail (byte_at bs (S O))) (Z.leb fu8_b2_min cp))
-                 (is_valid_cp cp)
-            then Some (cp, fu8_b2_mblen)
-            else None
-       else if (&&) (Z.leb fu8_b3_len len)
-                 (Z.eqb (Z.coq_land b0 fu8_b3_leadmask) fu8_b3_leadval)
-            then let cp =
-                   Z.coq_lor
-                     (Z.coq_lor
-                       (Z.shiftl (Z.coq_land b0 fu8_b3_m0) fu8_b3_s0)
-                       (Z.shiftl (Z.coq_land (byte_at bs (S O)) fu8_b3_m1)
-                         fu8_b3_s1))
-                     (Z.coq_land (byte_at bs (S (S O))) fu8_b3_m2)
-                 in
-                 if (&&)
-                      ((&&)
-                        ((&&) (is_trail (byte_at bs (S O)))
-                          (is_trail (byte_at bs (S (S O)))))
-                        (Z.leb fu8_b3_min cp)) (is_valid_cp cp)
-                 then Some (cp, fu8_b3_mblen)
-                 else None
-            else if (&&) (Z.leb fu8_b4_len len)
-                      (Z.eqb (Z.coq_land b0 fu8_b4_leadmask) fu8_b4_leadval)
-                 then let cp =
-                        Z.coq_lor
-                          (Z.coq_lor
-                            (Z.coq_lor
-                              (Z.shiftl (Z.coq_land b0 fu8_b4_m0) fu8_b4_s0)
-                              (Z.shiftl
-                                (Z.coq_land (byte_at bs (S O)) fu8_b4_m1)
-                                fu8_b4_s1))
-                            (Z.shiftl
-                              (Z.coq_land (byte_at bs (S (S O))) fu8_b4_m2)
-                              fu8_b4_s2))
-                          (Z.coq_land (byte_at bs (S (S (S O)))) fu8_b4_m3)
-                      in
-                      if (&&)
-                           ((&&)
-                             ((&&)
-                               ((&&) (is_trail (byte_at bs (S O)))
-                                 (is_trail (byte_at bs (S (S O)))))
-                               (is_trail (byte_at bs (S (S (S O))))))
-                             (Z.leb fu8_b4_min cp)) (is_valid_cp cp)
-                      then Some (cp, fu8_b4_mblen)
-                      else None
-                 else None
-
-(** val dec_at : z list -> z -> (z * z) option **)
-
-let dec_at line p =
-  decode_utf8 (skipn (Z.to_nat p) line)
-
-(** val substr : z list -> z -> z -> z list **)
-
-let substr line p n0 =
-  firstn (Z.to_nat n0) (skipn (Z.to_nat p) line)
-
-type wopts = { w_width : z; w_keep : bool; w_delims : z list }
-
-(** val find_delimiter : z list -> z -> nat option **)
-
-let rec find_delimiter ds c =
-  match ds with
+let last_byte doc =
+  match rev doc with
   | [] -> None
-  | d :: r ->
-    if Z.eqb d c
-    then Some O
-    else (match find_delimiter r c with
-          | Some i -> Some (S i)
-          | None -> None)
+  | b :: _ -> Some b
 
-(** val is_delim : z list -> z -> bool **)
+(** val count_byte : z -> z list -> nat **)
 
-let is_delim ds c =
-  match find_delimiter ds c with
-  | Some _ -> true
-  | None -> false
+let count_byte c bs =
+  length (filter (fun b -> Z.eqb b c) bs)
 
-(** val set_nth : nat -> z -> z list -> z list **)
+type fres =
+| FOk of z list * docmeta
+| FUB
 
-let rec set_nth i v = function
-| [] -> []
-| x :: r -> (match i with
-             | O -> v :: r
-             | S j -> x :: (set_nth j v r))
+(** val feed_doc : z list -> fres **)
 
-type wres =
-| WOk of z list list * z list list
-| WBadUtf8
-| WFuel
+let feed_doc doc =
+  let has =
+    match last_byte doc with
+    | Some b -> Some (Z.eqb b b64f_nl_test)
+    | None -> if b64f_back_guarded then Some false else None
+  in
+  (match has with
+   | Some h ->
+     let doc' = if h then doc else app doc (b64f_nl_push :: []) in
+     FOk (doc', { line_cnt = (count_byte b64f_nl_count doc'); has_nl = h })
+   | None -> FUB)
 
-type wstate = { s_pos : z; s_last_cut : z; s_pds : z list; s_pfd : z;
-                s_lines : z list list; s_dels : z list list }
+(** val rebuild :
+    nat -> bool -> z list list -> (z list * z list list) option **)
 
-(** val lookback : z list -> z -> z -> z **)
-
-let rec lookback pds last_cut dflt =
-  match pds with
-  | [] -> dflt
-  | e :: r ->
-    let pd = u64 (wrap32 e) in
-    if Z.gtb pd last_cut then pd else lookback r last_cut dflt
-
-type peekres =
-| PeekOk of z
-| PeekBad
-| PeekFuel
-
-(** val peek : nat -> z list -> wopts -> z -> z -> peekres **)
-
-let rec peek fuel line o last_cut cut_end =
-  if Z.ltb cut_end (Z.of_nat (length line))
-  then if (&&) o.w_keep (Z.geb (u64 (Z.sub cut_end last_cut)) o.w_width)
-       then PeekOk cut_end
-       else (match dec_at line cut_end with
-             | Some p ->
-               let (c, n0) = p in
-               if is_delim o.w_delims c
-               then if (&&) o.w_keep
-                         (Z.gtb (u64 (Z.sub (Z.add cut_end n0) last_cut))
-                           o.w_width)
-                    then PeekOk cut_end
-                    else (match fuel with
-                          | O -> PeekFuel
-                          | S f -> peek f line o last_cut (Z.add cut_end n0))
-               else PeekOk cut_end
-             | None -> PeekBad)
-  else PeekOk cut_end
-
-type stepres =
-| StScan of wstate
-| StCut of wstate
-| StDone of wstate
-| StBad
-| StFuel
-
-(** val step : z list -> wopts -> wstate -> stepres **)
-
-let step line o s =
-  let length0 = Z.of_nat (length line) in
-  if Z.ltb s.s_pos length0
-  then (match dec_at line s.s_pos with
+let rec rebuild cnt has answers =
+  match cnt with
+  | O -> Some ([], answers)
+  | S k ->
+    (match answers with
+     | [] -> None
+     | a :: r ->
+       (match rebuild k has r with
         | Some p ->
-          let (c, n0) = p in
-          let pos = Z.add s.s_pos n0 in
-          (match find_delimiter o.w_delims c with
-           | Some i ->
-             let pds = set_nth i (u64 s.s_pfd) s.s_pds in
-             let pfd = s.s_pfd in
-             if Z.ltb (u64 (Z.sub pos s.s_last_cut)) o.w_width
-             then StScan { s_pos = pos; s_last_cut = s.s_last_cut; s_pds =
-                    pds; s_pfd = pfd; s_lines = s.s_lines; s_dels = s.s_dels }
-             else let hard =
-                    if (&&) (Z.gtb (u64 (Z.sub pos s.s_last_cut)) o.w_width)
-                         (Z.gtb s.s_pos s.s_last_cut)
-                    then s.s_pos
-                    else pos
-                  in
-                  let pos_cut = lookback pds s.s_last_cut hard in
-                  (match peek (length line) line o s.s_last_cut pos_cut with
-                   | PeekOk cut_end ->
-                     if o.w_keep
-                     then let piece =
-                            substr line s.s_last_cut
-                              (u64 (Z.sub cut_end s.s_last_cut))
-                          in
-                          let del = [] in
-                          StCut { s_pos = cut_end; s_last_cut = cut_end;
-                          s_pds = pds; s_pfd = pfd; s_lines =
-                          (piece :: s.s_lines); s_dels = (del :: s.s_dels) }
-                     else let piece =
-                            substr line s.s_last_cut
-                              (u64 (Z.sub pos_cut s.s_last_cut))
-                          in
-                          let del =
-                            substr line pos_cut (u64 (Z.sub cut_end pos_cut))
-                          in
-                          StCut { s_pos = cut_end; s_last_cut = cut_end;
-                          s_pds = pds; s_pfd = pfd; s_lines =
-                          (piece :: s.s_lines); s_dels = (del :: s.s_dels) }
-                   | PeekBad -> StBad
-                   | PeekFuel -> StFuel)
-           | None ->
-             let pds = s.s_pds in
-             let pfd = wrap32 pos in
-             if Z.ltb (u64 (Z.sub pos s.s_last_cut)) o.w_width
-             then StScan { s_pos = pos; s_last_cut = s.s_last_cut; s_pds =
-                    pds; s_pfd = pfd; s_lines = s.s_lines; s_dels = s.s_dels }
-             else let hard =
-                    if (&&) (Z.gtb (u64 (Z.sub pos s.s_last_cut)) o.w_width)
-                         (Z.gtb s.s_pos s.s_last_cut)
-                    then s.s_pos
-                    else pos
-                  in
-                  let pos_cut = lookback pds s.s_last_cut hard in
-                  (match peek (length line) line o s.s_last_cut pos_cut with
-                   | PeekOk cut_end ->
-                     if o.w_keep
-                     then let piece =
-                            substr line s.s_last_cut
-                              (u64 (Z.sub cut_end s.s_last_cut))
-                          in
-                          let del = [] in
-                          StCut { s_pos = cut_end; s_last_cut = cut_end;
-                          s_pds = pds; s_pfd = pfd; s_lines =
-                          (piece :: s.s_lines); s_dels = (del :: s.s_dels) }
-                     else let piece =
-                            substr line s.s_last_cut
-                              (u64 (Z.sub pos_cut s.s_last_cut))
-                          in
-                          let del =
-                            substr line pos_cut (u64 (Z.sub cut_end pos_cut))
-                          in
-                          StCut { s_pos = cut_end; s_last_cut = cut_end;
-                          s_pds = pds; s_pfd = pfd; s_lines =
-                          (piece :: s.s_lines); s_dels = (del :: s.s_dels) }
-                   | PeekBad -> StBad
-                   | PeekFuel -> StFuel))
-        | None -> StBad)
-  else StDone s
+          let (d, rest) = p in
+          Some
+          ((app a
+             (app
+               (if (||) (Z.ltb Z0 (Z.of_nat k)) has
+                then b64f_nl_back :: []
+                else []) d)), rest)
+        | None -> None))
 
-(** val wrap_loop : nat -> z list -> wopts -> nat -> wstate -> stepres **)
+type cres =
+| COk of z list list
+| CChildShort
+| CSurplus
 
-let rec wrap_loop n0 line o f1 s =
-  match f1 with
-  | O -> StFuel
-  | S f1' ->
-    let rec inner f2 s0 =
-      match f2 with
-      | O -> StFuel
-      | S f2' ->
-        (match step line o s0 with
-         | StScan s' -> inner f2' s'
-         | StCut s' -> wrap_loop n0 line o f1' s'
-         | x -> x)
-    in inner n0 s
+(** val collect : docmeta list -> z list list -> cres **)
 
-(** val init_state : wopts -> wstate **)
+let rec collect metas answers =
+  match metas with
+  | [] -> (match answers with
+           | [] -> COk []
+           | _ :: _ -> CSurplus)
+  | m :: r ->
+    (match m.line_cnt with
+     | O -> (match answers with
+             | [] -> COk []
+             | _ :: _ -> CSurplus)
+     | S _ ->
+       (match rebuild m.line_cnt m.has_nl answers with
+        | Some p ->
+          let (d, rest) = p in
+          (match collect r rest with
+           | COk ds -> COk (d :: ds)
+           | x -> x)
+        | None -> CChildShort))
 
-let init_state o =
-  { s_pos = Z0; s_last_cut = Z0; s_pds = (repeat Z0 (length o.w_delims));
-    s_pfd = Z0; s_lines = []; s_dels = [] }
+type bres =
+| BOk of z list
+| BBadInput
+| BUB
+| BChildShort
+| BSurplus
+| BFuel
 
-(** val wrap_lines : z list -> wopts -> wres **)
+(** val decode_all : z list list -> z list list option **)
 
-let wrap_lines line o =
-  let n0 = S (S (length line)) in
-  (match wrap_loop n0 line o n0 (init_state o) with
-   | StDone s ->
-     if (||) (Z.ltb s.s_last_cut s.s_pos) (Z.eqb s.s_pos Z0)
-     then WOk
-            ((rev
-               ((substr line s.s_last_cut (u64 (Z.sub s.s_pos s.s_last_cut))) :: s.s_lines)),
-            (rev ([] :: s.s_dels)))
-     else WOk ((rev s.s_lines), (rev s.s_dels))
-   | StBad -> WBadUtf8
-   | _ -> WFuel)
-
-(** val c_str : z list -> z list **)
-
-let rec c_str = function
-| [] -> []
-| b :: r -> if Z.eqb b Z0 then [] else b :: (c_str r)
-
-(** val join : z list list -> z list list -> (z list * z list list) option **)
-
-let rec join answers = function
-| [] -> Some ([], answers)
-| d :: dr ->
-  (match answers with
-   | [] -> None
-   | a :: ar ->
-     (match join ar dr with
-      | Some p -> let (s, rest) = p in Some ((app a (app (c_str d) s)), rest)
-      | None -> None))
-
-(** val interleave : z list list -> z list list -> z list **)
-
-let rec interleave ps ds =
-  match ps with
-  | [] -> []
-  | p :: pr ->
-    (match ds with
-     | [] -> []
-     | d :: dr -> app p (app d (interleave pr dr)))
-
-type tres =
-| TOk of z list
-| TBadUtf8
-| TFuel
-| TChildShort
-
-(** val cr_strip : bool -> z list -> z list **)
-
-let cr_strip cr l =
-  if cr then strip_cr l else l
-
-(** val tool_lines :
-    wopts -> (z list -> z list) -> bool -> z list list -> tres **)
-
-let rec tool_lines o g cr_out = function
-| [] -> TOk []
+let rec decode_all = function
+| [] -> Some []
 | l :: r ->
-  (match wrap_lines l o with
-   | WOk (ps, ds) ->
-     (match join (map (fun p -> cr_strip cr_out (g p)) ps) ds with
-      | Some p ->
-        let (s, _) = p in
-        (match tool_lines o g cr_out r with
-         | TOk out -> TOk (app s (app ((Zpos (XO (XI (XO XH)))) :: []) out))
-         | x -> x)
-      | None -> TChildShort)
-   | WBadUtf8 -> TBadUtf8
-   | WFuel -> TFuel)
+  (match base64_decode l with
+   | DOk d ->
+     (match decode_all r with
+      | Some ds -> Some (d :: ds)
+      | None -> None)
+   | _ -> None)
 
-(** val foldfilter :
-    wopts -> (z list -> z list) -> bool -> bool -> z list -> tres **)
+(** val feed_all : z list list -> (z list * docmeta list) option **)
 
-let foldfilter o g cr_in cr_out input =
-  tool_lines o g cr_out (records (Zpos (XO (XI (XO XH)))) cr_in input)
+let rec feed_all = function
+| [] -> Some ([], [])
+| d :: r ->
+  (match feed_doc d with
+   | FOk (sent, m) ->
+     (match feed_all r with
+      | Some p -> let (s, ms) = p in Some ((app sent s), (m :: ms))
+      | None -> None)
+   | FUB -> None)
 
-(** val foldfilter_tool : wopts -> (z list -> z list) -> z list -> tres **)
+(** val encode_all : z list list -> z list option **)
 
-let foldfilter_tool o g input =
-  foldfilter o g fold_feeder_strip_cr fold_collector_strip_cr input
+let rec encode_all = function
+| [] -> Some []
+| d :: r ->
+  (match base64_encode d with
+   | Some e ->
+     (match encode_all r with
+      | Some o -> Some (app e (app (b64f_nl_out :: []) o))
+      | None -> None)
+   | None -> None)
 
-(** val count_cps : nat -> z list -> nat option **)
+(** val child_output : (z list -> z list) -> z list -> z list **)
 
-let rec count_cps fuel bs = match bs with
-| [] -> Some O
-| _ :: _ ->
-  (match fuel with
-   | O -> None
-   | S f ->
-     (match decode_utf8 bs with
-      | Some p ->
-        let (_, n0) = p in
-        (match count_cps f (skipn (Z.to_nat n0) bs) with
-         | Some k -> Some (S k)
-         | None -> None)
-      | None -> None))
+let child_output g child_in =
+  unrecords (Zpos (XO (XI (XO XH))))
+    (map g (records (Zpos (XO (XI (XO XH)))) false child_in))
 
-(** val utf8_valid : z list -> bool **)
+(** val b64filter_docs : (z list -> z list) -> bool -> z list list -> bres **)
 
-let utf8_valid bs =
-  match count_cps (length bs) bs with
-  | Some _ -> true
+let b64filter_docs g cr_out docs =
+  match feed_all docs with
+  | Some p ->
+    let (child_in, metas) = p in
+    (match collect metas
+             (records (Zpos (XO (XI (XO XH)))) cr_out
+               (child_output g child_in)) with
+     | COk out_docs ->
+       (match encode_all out_docs with
+        | Some o -> BOk o
+        | None -> BFuel)
+     | CChildShort -> BChildShort
+     | CSurplus -> BSurplus)
+  | None -> BUB
+
+(** val b64filter : (z list -> z list) -> bool -> bool -> z list -> bres **)
+
+let b64filter g cr_in cr_out input =
+  match decode_all (records (Zpos (XO (XI (XO XH)))) cr_in input) with
+  | Some docs -> b64filter_docs g cr_out docs
+  | None -> BBadInput
+
+(** val b64filter_tool : (z list -> z list) -> z list -> bres **)
+
+let b64filter_tool g input =
+  b64filter g b64f_feeder_strip_cr b64f_collector_strip_cr input
+
+(** val b64filter_child_stdin : z list -> z list option **)
+
+let b64filter_child_stdin input =
+  match decode_all
+          (records (Zpos (XO (XI (XO XH)))) b64f_feeder_strip_cr input) with
+  | Some docs ->
+    (match feed_all docs with
+     | Some p -> let (s, _) = p in Some s
+     | None -> None)
+  | None -> None
+
+(** val doc_lines : z list -> z list list **)
+
+let doc_lines d = match d with
+| [] -> [] :: []
+| _ :: _ -> records (Zpos (XO (XI (XO XH)))) false d
+
+(** val ends_nl : z list -> bool **)
+
+let ends_nl d =
+  match last_byte d with
+  | Some b -> Z.eqb b (Zpos (XO (XI (XO XH))))
   | None -> false
 
-(** val all_delims : nat -> z list -> z list -> bool **)
+(** val join_lines : z list list -> bool -> z list **)
 
-let rec all_delims fuel ds bs = match bs with
-| [] -> true
-| _ :: _ ->
-  (match fuel with
-   | O -> false
-   | S f ->
-     (match decode_utf8 bs with
-      | Some p ->
-        let (c, n0) = p in
-        (&&) (is_delim ds c) (all_delims f ds (skipn (Z.to_nat n0) bs))
-      | None -> false))
+let rec join_lines ls final =
+  match ls with
+  | [] -> []
+  | l :: r ->
+    (match r with
+     | [] -> app l (if final then (Zpos (XO (XI (XO XH)))) :: [] else [])
+     | _ :: _ ->
+       app l (app ((Zpos (XO (XI (XO XH)))) :: []) (join_lines r final)))
 
-(** val width_ok : z -> z list -> bool **)
+(** val doc_spec : (z list -> z list) -> z list -> z list **)
 
-let width_ok w piece =
-  (||) (Z.leb (Z.of_nat (length piece)) w)
-    (match count_cps (length piece) piece with
-     | Some n0 ->
-       (match n0 with
-        | O -> false
-        | S n1 -> (match n1 with
-                   | O -> true
-                   | S _ -> false))
-     | None -> false)
-
-(** val check_wrap : z list -> wopts -> z list list -> z list list -> bool **)
-
-let check_wrap line o ps ds =
-  (&&)
-    ((&&)
-      ((&&)
-        ((&&)
-          ((&&)
-            ((&&)
-              ((&&) (Nat.eqb (length ps) (length ds))
-                (negb (Nat.eqb (length ps) O)))
-              (forallb (fun x -> Z.eqb (fst x) (snd x))
-                (combine (interleave ps ds) line)))
-            (Nat.eqb (length (interleave ps ds)) (length line)))
-          (forallb utf8_valid ps))
-        (forallb (fun d -> all_delims (length d) o.w_delims d) ds))
-      (if o.w_keep
-       then forallb (fun d -> match d with
-                              | [] -> true
-                              | _ :: _ -> false) ds
-       else true)) (forallb (width_ok o.w_width) ps)
+let doc_spec g d =
+  join_lines (map g (doc_lines d)) (ends_nl d)
